@@ -201,8 +201,12 @@ def main(tier: str) -> int:
                               "maxiters": 1 + i % 3, "stoptol": [1e-4, 0.0][i % 2], "printitn": [0, 1][i % 2],
                               "init": init, "seed": sd + i % 5})
                 i += 1
-                # data exactly representable at the requested ranks (fit = 1 up to rounding), and full ranks
-                for rk, dk in (([min(2, s) for s in shape], "lowrank"), (list(shape), "generic")):
+                # data exactly representable at the requested ranks (fit = 1 up to rounding), full ranks, and
+                # unbalanced rank vectors (one rank larger than the product of the others: the mode-n unfolding of the
+                # projected tensor is tall, an SVD-based update would return too few columns)
+                unb = [min(s, 4) if j == i % len(shape) else (2 if j == (i + 1) % len(shape) and len(shape) > 3 else 1)
+                       for j, s in enumerate(shape)]
+                for rk, dk in (([min(2, s) for s in shape], "lowrank"), (list(shape), "generic"), (unb, "generic")):
                     for sdx in range(4 if tier == "quick" else 12):
                         cases.append({"cls": "tucker", "shape": shape, "order": order, "ranks": rk, "data": dk,
                                       "maxiters": 2, "stoptol": 1e-4, "printitn": 0, "init": init, "seed": sd + sdx})
